@@ -170,6 +170,7 @@ def carver_kwargs(case, vals):
     if case["carver"] != "continuous":
         kw["sort_by"] = cfg.get("sort_by", "tschuprowt")
     kw.update(feature_kwargs(case["kind"], vals))
+    kw.update(case.get("kw") or {})  # user-chosen sentinels (str_nan / str_default)
     return kw
 
 
